@@ -154,6 +154,32 @@ pub proof fn lemma_top_of_field(v: u64, n: nat, s: nat, j: nat)
     }
 }
 
+/// `checks` configuration: the argument check of write_bits passes for a clean value
+pub proof fn lemma_clean_check(value: u64, n: nat)
+    requires n <= 64, (value as nat) < pow2(n),
+    ensures value & (((1_u128 << (n as u64)).wrapping_sub(1)) as u64) == value,
+{
+    if n == 64 {
+        let x: u128 = 1_u128 << 64u64;
+        assert(x == 0x1_0000_0000_0000_0000u128) by (bit_vector) requires x == 1_u128 << 64u64;
+        assert(value & 0xffff_ffff_ffff_ffffu64 == value) by (bit_vector);
+    } else {
+        let k = n as u64;
+        let x: u128 = 1_u128 << k;
+        assert(x as u64 == (1u64 << k) && x >= 1 && x <= 0x8000_0000_0000_0000u128) by (bit_vector) requires k <= 63, x == 1_u128 << k;
+        lemma2_to64();
+        lemma2_to64_rest();
+        lemma_pow2_strictly_increases(n, 64);
+        lemma_u64_shl_is_mul(1, k);
+        assert(x as u64 as nat == pow2(n));
+        assert(x == pow2(n));
+        assert((x.wrapping_sub(1)) as u64 == low_bits_mask(n));
+        lemma_u64_low_bits_mask_is_mod(value, n);
+        lemma_pow2_pos(n);
+        lemma_small_mod(value as nat, pow2(n));
+    }
+}
+
 // ---------------------------------------------------------------- BE
 /// easy path: (b << n) | (v.cast() & !(MAX << n))
 pub proof fn lemma_be_wb_easy(b: {{W}}, p: nat, v: u64, n: nat, b2: {{W}})
@@ -237,11 +263,13 @@ impl<WW: WordWrite> BufBitWriter<BE, WW> {
 //@ATTR #[verifier::loop_isolation(false)]
 //@SIG fn write_bits_be(&mut self, mut value: u64, n_bits: usize) -> (r: Result<usize, WW::Error>)
 //@SPEC     requires old(self).inv(), n_bits <= 64,
+//@SPEC[checks]         (value as nat) < pow2(n_bits as nat),
 //@SPEC     ensures r is Ok ==> r->Ok_0 == n_bits && final(self).inv() && final(self).view() == old(self).view() + field(false, value, n_bits as nat),
 //@INST <<WW::Word::BITS>> => <<{{BITS}}usize>>
 //@INST <<WW::Word::MAX>> => <<{{W}}::MAX>>
 //@REPLACE <<for _ in 0..>> => <<for _i in it: 0..>>
 //@PROLOGUE let ghost sp = self.space_left_in_buffer as nat; let ghost p = ({{BITS}} - sp) as nat; let ghost b0 = self.buffer; let ghost ws0 = self.backend.words(); let ghost base = self.view(); let ghost F = field(false, value, n_bits as nat); let ghost n = n_bits as nat;
+//@PROLOGUE[checks] proof { lemma_clean_check(value, n_bits as nat); }
 //@PROOF after=<<self.space_left_in_buffer -= n_bits;>> proof { lemma_be_wb_easy(b0, p, value, n, self.buffer); assert(self.view() =~= base + F); }
 //@REPLACE [[self.buffer |= (value << (64 - n_bits) >> (64 - self.space_left_in_buffer)).cast();]] => [[let tt = value << (64 - n_bits) >> (64 - self.space_left_in_buffer); self.buffer |= tt.cast();]]
 //@PROOF after=<<self.buffer |= tt.cast();>> proof { lemma_be_wb_fill(b0, p, value, n, tt, self.buffer); }
@@ -407,11 +435,13 @@ impl<WW: WordWrite> BufBitWriter<LE, WW> {
 //@ATTR #[verifier::loop_isolation(false)]
 //@SIG fn write_bits_le(&mut self, mut value: u64, n_bits: usize) -> (r: Result<usize, WW::Error>)
 //@SPEC     requires old(self).inv(), n_bits <= 64,
+//@SPEC[checks]         (value as nat) < pow2(n_bits as nat),
 //@SPEC     ensures r is Ok ==> r->Ok_0 == n_bits && final(self).inv() && final(self).view() == old(self).view() + field(true, value, n_bits as nat),
 //@INST <<WW::Word::BITS>> => <<{{BITS}}usize>>
 //@INST <<WW::Word::MAX>> => <<{{W}}::MAX>>
 //@REPLACE <<for _ in 0..>> => <<for _i in it: 0..>>
 //@PROLOGUE let ghost sp = self.space_left_in_buffer as nat; let ghost p = ({{BITS}} - sp) as nat; let ghost b0 = self.buffer; let ghost ws0 = self.backend.words(); let ghost base = self.view(); let ghost v0 = value; let ghost F = field(true, v0, n_bits as nat); let ghost n = n_bits as nat;
+//@PROLOGUE[checks] proof { lemma_clean_check(value, n_bits as nat); }
 //@PROOF after=<<self.space_left_in_buffer -= n_bits;>> proof { lemma_le_wb_easy(b0, p, v0, n, self.buffer); assert(self.view() =~= base + F); }
 //@PROOF after=[[self.buffer |= value.cast() << ({{BITS}}usize - self.space_left_in_buffer);]] proof { lemma_le_wb_fill(b0, p, v0, n, self.buffer); }
 //@PROOF after=<<self.backend.write_word(self.buffer.to_le())?;>> proof { lemma_push(true, ws0, spec_to_le(self.buffer)); axiom_le(self.buffer); assert(words_bits(true, self.backend.words()) =~= base + F.subrange(0, sp as int)); }
